@@ -87,6 +87,8 @@ def _tagger_list(cls):
 DATE_STRATEGIES = {
     "slash": '{"serialize": _ser_slash, "deserialize": _de_slash}',
     "ord": '{"serialize": _ser_ord, "deserialize": _de_ord}',
+    "de_only_slash": '{"deserialize": _de_slash}',
+    "ser_only_ord": '{"serialize": _ser_ord}',
     "obj_slash": 'FormattedDate("%Y/%m/%d")',
     "obj_dot": 'FormattedDate("%d.%m.%Y")',
 }
